@@ -13,7 +13,7 @@ HARNESSES = [
 ] + [
  dict(name='rangetoken_' + OPN[op], entry='harness_rangetoken', srcs=['C11/rangetoken.cpp'], tus=TUS,
       defs={'quick': {'NA': 1, 'NB': 1, 'OPS': 1, 'OP': op}, 'thorough': {'NA': 2, 'NB': 1, 'OPS': 1, 'OP': op}}, unwind={'quick': 9 if op == 0 else 5, 'thorough': 9 if op == 0 else 7},
-      timeout={'quick': 600, 'thorough': 1700}, mem_gb=10) for op in (1, 2)   # merge (op 0): CBMC reports an unwinding failure on the merge loop at every bound tried (also with the loop-nesting-aware block order) -> no verdict, not claimed
+      timeout={'quick': 600, 'thorough': 3000}, mem_gb=10) for op in (1, 2)   # merge (op 0): CBMC reports an unwinding failure on the merge loop at every bound tried (also with the loop-nesting-aware block order) -> no verdict, not claimed
 ] + [
  # history: compaction by a first operation, then a second operation (2-step scripts)
  dict(name='rangetoken_2ops', entry='harness_rangetoken', srcs=['C11/rangetoken.cpp'], tus=TUS, tiers=('thorough',),
